@@ -88,40 +88,57 @@ def hinsert (h : List (Bytes × Bytes)) (n v : Bytes) : List (Bytes × Bytes) :=
   let n' := n.map toLower
   h.filter (fun e => !(e.1 == n')) ++ [(n', v)]
 
+/-- one iteration of a parser loop: stop with a result, or go on with a new state -/
+inductive Step (σ ρ : Type) where
+  | done (r : ρ)
+  | cont (s : σ)
+
+/-- one iteration of the loop of `parse::headers` at byte `b` (index `pos`, `rest` follows).
+Every unchecked slice of the Rust code is a `.panic` result here (`Props/C02` proves none is reachable). -/
+def hstep (orig : Bytes) (b : UInt8) (rest : Bytes) (pos : Nat) (st : HSt) :
+    Step HSt (Res Err (List (Bytes × Bytes) × Nat)) :=
+  if b = CR then .cont st else
+  let lf := if b = LF then st.lf + 1 else 0
+  if b = LF ∧ lf = 2 then .done (.ok (st.hdrs, pos + 1)) else
+  let st := { st with lf := lf }
+  if !st.inValue then
+    if b = COLON then
+      if rest.head? ≠ some SP then
+        -- `&bytes[pos + 1..]`
+        if pos + 1 > orig.length then .done (.panic "range start index out of range for slice") else
+        let vs := pos + 1 + skipWhile (fun x => x == SP || x == TAB) rest
+        .cont { st with nameEnd := pos, inValue := true, valueStart := vs }
+      else .cont { st with nameEnd := pos }
+    else if b = SP then
+      -- `&bytes[pos..]`
+      if pos > orig.length then .done (.panic "range start index out of range for slice") else
+      -- `position(|b| b != ' ').unwrap_or(0) + pos`
+      let vs := pos + (if (b :: rest).all (· == SP) then 0 else skipWhile (· == SP) (b :: rest))
+      .cont { st with inValue := true, valueStart := vs }
+    else .cont st
+  else
+    if b = LF then
+      match sliceGet orig st.nameStart st.nameEnd with
+      | none => .done (.err .illegalName)
+      | some name =>
+        if !validName name then .done (.err .illegalName) else
+        let valueEnd := if pos > st.valueStart ∧ orig[pos - 1]? = some CR then pos - 1 else pos
+        -- `bytes.slice(value_start..value_end)` asserts `begin <= end` and `end <= len`
+        if st.valueStart > valueEnd ∨ valueEnd > orig.length then .done (.panic "Bytes::slice: range out of bounds") else
+        let value := extract orig st.valueStart valueEnd
+        if !validValue value then .done (.err .illegalValue) else
+        .cont { st with inValue := false, nameStart := pos + 1, hdrs := hinsert st.hdrs name value }
+    else .cont st
+
 /-- the loop of `parse::headers`; returns the headers and `header_end` (bytes consumed) -/
-def hgo (orig : Bytes) : Bytes → Nat → HSt → Except Err (List (Bytes × Bytes) × Nat)
+def hgo (orig : Bytes) : Bytes → Nat → HSt → Res Err (List (Bytes × Bytes) × Nat)
   | [], pos, st => .ok (st.hdrs, pos)
   | b :: rest, pos, st =>
-    if b = CR then hgo orig rest (pos + 1) st else
-    let lf := if b = LF then st.lf + 1 else 0
-    if b = LF ∧ lf = 2 then .ok (st.hdrs, pos + 1) else
-    let st := { st with lf := lf }
-    if !st.inValue then
-      if b = COLON then
-        if rest.head? ≠ some SP then
-          let vs := pos + 1 + skipWhile (fun x => x == SP || x == TAB) rest
-          hgo orig rest (pos + 1) { st with nameEnd := pos, inValue := true, valueStart := vs }
-        else hgo orig rest (pos + 1) { st with nameEnd := pos }
-      else if b = SP then
-        let vs := pos + skipWhile (· == SP) (b :: rest)
-        hgo orig rest (pos + 1) { st with inValue := true, valueStart := vs }
-      else hgo orig rest (pos + 1) st
-    else
-      if b = LF then
-        match sliceGet orig st.nameStart st.nameEnd with
-        | none => .error .illegalName
-        | some name =>
-          if !validName name then .error .illegalName else
-          let valueEnd := if pos > st.valueStart ∧ orig[pos - 1]? = some CR then pos - 1 else pos
-          -- `bytes.slice(value_start..value_end)` panics if start > end: cannot happen, see `Props/C07`
-          let value := extract orig st.valueStart valueEnd
-          if st.valueStart > valueEnd then .error .illegalValue else
-          if !validValue value then .error .illegalValue else
-          let hs := hinsert st.hdrs name value
-          hgo orig rest (pos + 1) { st with inValue := false, nameStart := pos + 1, hdrs := hs }
-      else hgo orig rest (pos + 1) st
+    match hstep orig b rest pos st with
+    | .done r => r
+    | .cont st' => hgo orig rest (pos + 1) st'
 
-def parseHeaders (b : Bytes) : Except Err (List (Bytes × Bytes) × Nat) := hgo b b 0 {}
+def parseHeaders (b : Bytes) : Res Err (List (Bytes × Bytes) × Nat) := hgo b b 0 {}
 
 /-! ### the request line state machine of `read::request` -/
 inductive Stage | method | path | version | headers deriving DecidableEq, Repr
@@ -139,34 +156,55 @@ structure RSt where
 def isMethodToken (m : Bytes) : Bool := !m.isEmpty && m.all isTchar
 def parseVersion (v : Bytes) : Bool := VERSIONS.contains v
 
+/-- one iteration of the `for (pos, byte)` loop of `request`. `method: [u8; 7]`, `version: [u8; 8]`:
+indexing them, `&buffer[..method_len]` and `buffer.slice(header_end - 1..)` are `.panic` results. -/
+def rstep (orig : Bytes) (b : UInt8) (pos : Nat) (st0 : RSt) : Step RSt (Res Err RSt) :=
+  let st := { st0 with headerEnd := st0.headerEnd + 1 }
+  if b = CR then .cont st else
+  let lf := if b = LF then st.lf + 1 else 0
+  if b = LF ∧ lf = 2 then .done (.ok { st with lf := lf }) else
+  let st := { st with lf := lf }
+  match st.stage with
+  | .method =>
+    if b = SP ∨ st.methodLen = 7 then
+      -- `&buffer[..method_len]`
+      if st.methodLen > orig.length then .done (.panic "range end index out of range for slice") else
+      if !isMethodToken (orig.take st.methodLen) then .done (.err .invalidMethod)
+      else .cont { st with stage := .path }
+    else
+      -- `method[method_len] = byte`
+      if st.methodLen ≥ 7 then .done (.panic "index out of bounds: the len is 7") else
+      .cont { st with methodLen := st.methodLen + 1 }
+  | .path =>
+    let st := if st.pathStart = 0 then { st with pathStart := pos } else st
+    if b = SP then .cont { st with pathEnd := pos, stage := .version }
+    else .cont st
+  | .version =>
+    if b = LF ∨ st.version.length = 8 then
+      -- `&version[..version_index]`
+      if st.version.length > 8 then .done (.panic "range end index out of range for slice") else
+      if !parseVersion st.version then .done (.err .invalidVersion)
+      else .cont { st with stage := .headers }
+    else
+      -- `version[version_index] = byte`
+      if st.version.length ≥ 8 then .done (.panic "index out of bounds: the len is 8") else
+      .cont { st with version := st.version ++ [b] }
+  | .headers =>
+    -- `buffer.slice(header_end - 1..)`
+    if st.headerEnd = 0 then .done (.panic "attempt to subtract with overflow") else
+    if st.headerEnd - 1 > orig.length then .done (.panic "Bytes::slice: range start out of bounds") else
+    match parseHeaders (orig.drop (st.headerEnd - 1)) with
+    | .err e => .done (.err e)
+    | .panic w => .done (.panic w)
+    | .ok (h, e) => .done (.ok { st with hdrs := h, headerEnd := st.headerEnd + e })
+
 /-- the `for (pos, byte)` loop of `request`; result: final state or error -/
-def rgo (orig : Bytes) : Bytes → Nat → RSt → Except Err RSt
+def rgo (orig : Bytes) : Bytes → Nat → RSt → Res Err RSt
   | [], _, st => .ok st
   | b :: rest, pos, st =>
-    let st := { st with headerEnd := st.headerEnd + 1 }
-    if b = CR then rgo orig rest (pos + 1) st else
-    let lf := if b = LF then st.lf + 1 else 0
-    if b = LF ∧ lf = 2 then .ok { st with lf := lf } else
-    let st := { st with lf := lf }
-    match st.stage with
-    | .method =>
-      if b = SP ∨ st.methodLen = 7 then
-        if !isMethodToken (orig.take st.methodLen) then .error .invalidMethod
-        else rgo orig rest (pos + 1) { st with stage := .path }
-      else rgo orig rest (pos + 1) { st with methodLen := st.methodLen + 1 }
-    | .path =>
-      let st := if st.pathStart = 0 then { st with pathStart := pos } else st
-      if b = SP then rgo orig rest (pos + 1) { st with pathEnd := pos, stage := .version }
-      else rgo orig rest (pos + 1) st
-    | .version =>
-      if b = LF ∨ st.version.length = 8 then
-        if !parseVersion st.version then .error .invalidVersion
-        else rgo orig rest (pos + 1) { st with stage := .headers }
-      else rgo orig rest (pos + 1) { st with version := st.version ++ [b] }
-    | .headers =>
-      match parseHeaders (orig.drop (st.headerEnd - 1)) with
-      | .error e => .error e
-      | .ok (h, e) => .ok { st with hdrs := h, headerEnd := st.headerEnd + e }
+    match rstep orig b pos st with
+    | .done r => r
+    | .cont st' => rgo orig rest (pos + 1) st'
 
 structure Head where
   method : Bytes
@@ -183,18 +221,26 @@ def HOST : Bytes := s2b "host"
 def Head.versionOk (h : Head) : Bool := parseVersion h.version
 
 /-- `read::request` after `read_headers` (everything but the final `http::Uri` parse) -/
-def requestHead (buf : Bytes) (defaultHost : Option Bytes) : Except Err Head :=
+def requestHead (buf : Bytes) (defaultHost : Option Bytes) : Res Err Head :=
   match rgo buf buf 0 {} with
-  | .error e => .error e
+  | .err e => .err e
+  | .panic w => .panic w
   | .ok st =>
-    if st.pathEnd ≤ st.pathStart then .error .noPath else
+    if st.pathEnd ≤ st.pathStart then .err .noPath else
     let host := match (st.hdrs.find? (·.1 == HOST)).map (·.2) with
       | some h => some h
       | none => defaultHost
     match host with
-    | none => .error .noHost
+    | none => .err .noHost
     | some h =>
-      if !isMethodToken (buf.take st.methodLen) then .error .invalidMethod else
+      -- `&buffer[path_start..path_end]`
+      if st.pathEnd > buf.length then .panic "range end index out of range for slice" else
+      -- `&method[..method_len]`
+      if st.methodLen > 7 then .panic "range end index out of range for slice" else
+      if !isMethodToken (buf.take st.methodLen) then .err .invalidMethod else
+      -- `buffer.slice(header_end - 1..)`
+      if st.headerEnd = 0 then .panic "attempt to subtract with overflow" else
+      if st.headerEnd - 1 > buf.length then .panic "Bytes::slice: range start out of bounds" else
       -- the final `parse::version` check comes after the `http::Uri` parse: see `Head.versionOk`
       .ok ⟨buf.take st.methodLen, extract buf st.pathStart st.pathEnd, st.version, h, st.hdrs, st.headerEnd - 1⟩
 
